@@ -205,6 +205,28 @@ def run(ctx):
             else:
                 ctx.viol("N5", f, rn.ast, "siblings are not returned in the parent's child order: %s" % verdict,
                          construct="%s.siblings order: %s" % (m, verdict))
+    # ---- N7: descendants / leaves take their order from the pre-order iterator over the node itself (the order of a
+    # hand-written traversal is not followed: no verdict rather than a silent pass)
+    unfollowed = []
+    for m in T.MIXINS:
+        for name in ("descendants", "leaves"):
+            f = p.func(m, name)
+            cfg = typer.cfg_of(f)
+            for rn in cfg.stmt_nodes(("return",)):
+                if rn.ast.value is None:
+                    continue
+                e = _expand_defs(rn, rn.ast.value)
+                src = [c for c in ast.walk(e) if isinstance(c, ast.Call) and norm(c.func) == "PreOrderIter" and c.args
+                       and norm(c.args[0]) == f.selfname]
+                reord = [c for c in ast.walk(e) if isinstance(c, ast.Call) and isinstance(c.func, ast.Name) and c.func.id in ("reversed", "sorted", "set", "frozenset")]
+                if src and not reord:
+                    ctx.inst("N7", f, rn.ast, "%s in the order of PreOrderIter(self)" % name)
+                elif src:
+                    ctx.viol("N7", f, rn.ast, "%s passes the pre-order through %s(): the order is no longer pre-order" % (name, reord[0].func.id))
+                else:
+                    unfollowed.append("%s.%s is not computed from PreOrderIter(self): its order is not followed" % (m, name))
+    if unfollowed:
+        ctx.extra["N7_unfollowed"] = unfollowed
     # ---- N6: no deferred computation (generator expression, lambda, nested function) created inside a loop reads a
     # variable the loop rebinds, unless it is consumed on the spot: when it finally runs it sees the LAST binding
     scope = list(members(p)) + [g for g in p.all_funcs if g.module.relpath == UTIL and g.cls is None and g.outer is None]
@@ -216,6 +238,8 @@ def run(ctx):
         for why, node in _late_binding(f.node):
             ctx.viol("N6", f, node, why)
         ctx.inst("N6", f, f.qual, "no deferred computation captures a loop-rebound variable")
+    if ctx.extra.get("N7_unfollowed") and not ctx.findings:
+        raise AnalysisError("C04 N7: " + "; ".join(ctx.extra["N7_unfollowed"][:2]))
     ctx.floor("N1", 30)
     ctx.floor("N2", 8)
     ctx.floor("N3", 30)
@@ -330,3 +354,20 @@ def _late_binding(fnode):
                                 {"GeneratorExp": "generator expression", "Lambda": "lambda", "FunctionDef": "nested function"}[type(d).__name__],
                                 ", ".join("`%s`" % c for c in captured)), d))
     return out
+
+
+def _expand_defs(cfgnode, expr, depth=4):
+    """names replaced by the value of their unique reaching definition (also when that value is a call)"""
+    import copy
+    from .common import reaching_def_nodes
+    if depth <= 0:
+        return expr
+
+    class R(ast.NodeTransformer):
+        def visit_Name(self, node):
+            if isinstance(node.ctx, ast.Load):
+                ds = reaching_def_nodes(cfgnode, node.id)
+                if ds and len(ds) == 1:
+                    return _expand_defs(ds[0], copy.deepcopy(ds[0].ast.value), depth - 1)
+            return node
+    return R().visit(copy.deepcopy(expr))
